@@ -342,7 +342,12 @@ func generate(rng *rand.Rand, steps int, profile string) ([]string, []string, ma
 				g.feat["clone-missing"] = true
 			} else {
 				k := rng.Intn(len(ch))
-				g.do("clone " + ch[k].name)
+				if rng.Intn(2) == 0 {
+					g.do("clone " + ch[k].name + " late")
+					g.feat["clone-status-late"] = true
+				} else {
+					g.do("clone " + ch[k].name)
+				}
 				g.feat["clone"] = true
 				if k < len(ch)-1 {
 					g.feat["clone-not-latest"] = true
